@@ -796,10 +796,9 @@ class C16(Property):
         'text) and by the correspondence, not extracted; the spec theorems (eyringHS_spec, radiolytic_spec, gibbs_spec, '
         'temperature_programs_spec, exp_log10_spec, ...) are about stored numeric arguments without unique keys',
         'the @skipped hash of the signature records (units / constants branches of arrhenius.py, eyring.py) is not pinned by a theorem',
-        'override of a defaulted or of a nested-expression argument (override_replaces_exactly is stated for stored numeric arguments)',
-        'named overrides under arithmetic composition: that an override still replaces exactly its own argument inside arbitrary trees '
-        '(+ - * / ** neg, reflected) is decided by the oracle (wrapper_case) and the correspondence; the theorems cover all_args of one '
-        'instance (override_replaces_exactly) and the refusal of UnaryWrapper arithmetic with unique keys (unarywrapper_refuses_unique_keys)',
+        'named overrides in NESTED trees that contain MassAction operands at several levels: oracle (wrapper_case) and correspondence; the '
+        'theorems cover one level (override_in_massaction_arithmetic), every MassAction-free program (override_under_composition) and the '
+        'refusal for wrappers that carry keys (unarywrapper_refuses_unique_keys)',
         'conversion of sympy operands by _implicit_conversion (Symbol, Float, two-argument Add / Mul, Pow; refusals for Integer / Rational atoms, '
         'three-argument Add / Mul, sympy object as left operand): oracle only (sympyop cases), not in the Lean model',
         'Expr.__eq__, Expr.arg with a str index, rate_coeff of composite expressions, get_named_keys, g_value, the callback factories '
